@@ -27,13 +27,9 @@ func Parse(s string) (V, error) {
 	if strings.TrimSpace(s) == "" {
 		return Void, nil
 	}
-	dec := json.NewDecoder(strings.NewReader(s))
 	var x interface{}
-	if err := dec.Decode(&x); err != nil {
+	if err := json.Unmarshal([]byte(s), &x); err != nil {
 		return nil, err
-	}
-	if dec.More() {
-		return nil, fmt.Errorf("trailing data")
 	}
 	return norm(x), nil
 }
